@@ -804,6 +804,41 @@ func directed() []*Case {
 			},
 			Gdef: markGdef, Lookups: []int{0}, Hist: [][]G{one(1, 10, 10), one(1, 10, 10, 1), one(1, 10, 10, 10, 1, 10)}})
 	}
+	// ligature in a nested lookup whose flags skip a glyph that belongs to the
+	// PARENT's input (the parent ignores nothing): the parent's recorded input
+	// positions behind the merged glyphs must move down by the number of
+	// glyphs the ligature removed, for every place the skipped glyph can stand
+	// in and every later action index
+	for nc := 2; nc <= 4; nc++ {
+		for gap := 1; gap < nc; gap++ {
+			for _, tailGlyph := range []int{0, 2} {
+				var seq []int
+				for i := 0; i < gap; i++ {
+					seq = append(seq, 1)
+				}
+				seq = append(seq, 10)
+				for i := gap; i < nc; i++ {
+					seq = append(seq, 1)
+				}
+				if tailGlyph != 0 {
+					seq = append(seq, tailGlyph)
+				}
+				ligIn := make([]int, nc-1)
+				for i := range ligIn {
+					ligIn[i] = 1
+				}
+				for k := 0; k <= len(seq); k++ {
+					out = append(out, &Case{
+						LL: []*Lookup{
+							{Subs: []*Sub{{Kind: "sc1", Cov: []KV{{1, 0}}, Rules: [][]Rule{{{In: append([]int{}, seq[1:]...), Acts: []Act{{0, 1}, {k, 2}, {1, 2}}}}}}}},
+							{Flags: 8, Subs: []*Sub{{Kind: "g41", Cov: []KV{{1, 0}}, Ligs: [][]Lig{{{In: ligIn, Out: 5}}}}}},
+							inc,
+						},
+						Gdef: markGdef, Lookups: []int{0}, Hist: [][]G{one(seq...), one(append(append([]int{}, seq...), seq...)...)}})
+				}
+			}
+		}
+	}
 	// mark class beyond the anchor row (GPOS 4.1 / 6.1)
 	for _, kind := range []string{"p41", "p61"} {
 		for _, cls := range []int{0, 1, 3, 65535} {
